@@ -318,6 +318,42 @@ fn main() {
                 }
             }
         }
+        "tinyprobe" => {
+            // C15 below the trace clock: a first response after 1 ns .. 999 ns (not zero), a second one
+            // after an ordinary delay, and the RTO the third request starts with
+            use std::time::{Duration, Instant};
+            use stun_agent::{RttConfig, StunAttributes, StunClienteBuilder, TransportReliability};
+            for cfg_rto_ms in [500u64, 300] {
+                for s1 in [1u64, 2, 3, 500, 999, 1000, 1001] {
+                    for s2_ms in [1u64, 100] {
+                        let mut client = StunClienteBuilder::new(TransportReliability::Unreliable(RttConfig {
+                            rto: Duration::from_millis(cfg_rto_ms), granularity: Duration::from_millis(1), rm: 16, rc: 7 }))
+                            .build().expect("client");
+                        let base = Instant::now();
+                        let m = stun_rs::MessageMethod::try_from(1u16).unwrap();
+                        let mut t = base;
+                        let mut ok = true;
+                        for d in [Duration::from_nanos(s1), Duration::from_millis(s2_ms)] {
+                            let Ok(id) = client.send_request(m, StunAttributes::default(), vec![0u8; 256], t) else { ok = false; break };
+                            let _ = client.events();
+                            let resp = rustun_verif_harness::obs::build(1, rustun_verif_harness::obs::CLASS_SUCCESS, id.as_bytes(), &[]);
+                            t += d;
+                            ok &= client.on_buffer_recv(&resp, t).is_ok();
+                            let _ = client.events();
+                            t += Duration::from_millis(10);
+                        }
+                        let id3 = client.send_request(m, StunAttributes::default(), vec![0u8; 256], t);
+                        let snap = client.verif_snapshot();
+                        let used = id3.ok().and_then(|i| snap.transactions.iter().find(|x| x.id == i).map(|x| x.calc_rtt));
+                        writeln!(tf, "{}", json!({"op":"tiny","tr":ntr,"cfg_rto_ns":cfg_rto_ms * 1_000_000,"gran_ns":1_000_000,
+                            "s1_ns":s1,"s2_ns":s2_ms * 1_000_000,"sampled":ok,
+                            "used_rto_ns": used.map(|d| d.as_nanos().min(2_000_000_000) as i64).unwrap_or(-1)})).unwrap();
+                        nlines += 1;
+                        ntr += 1;
+                    }
+                }
+            }
+        }
         _ => {
             eprintln!("usage: drive-client walk|replay ...");
             std::process::exit(2);
